@@ -843,3 +843,42 @@ func H_C16_floatRange(i int) {
 		verifAssert(false, "C16: the JSON of a float reads back as a number")
 	}
 }
+
+// places around a mapped call's split operand and a call's modifiers
+const c09SplitTemplate = `stage BAZ(
+    in  int x,
+    in  int y,
+    out int o,
+    src comp "bin",
+)
+
+pipeline Q(
+    out int[] o,
+)
+{
+    map call BAZ(
+        x = split
+@0@            [
+@1@                1,
+                2,
+            ],
+        y = 3,
+    ) using (
+@2@        volatile = true,
+    )
+
+    return (
+        o = BAZ.o,
+    )
+}
+`
+
+var c09SplitListed = []bool{false, true, true}
+
+// H_C09_commentAtSplit(slot, n): one comment between `split` and its operand
+// (only "not lost" is claimed there), before the first element of the operand,
+// or before a modifier of the call.
+func H_C09_commentAtSplit(slot, n int) {
+	marker := c09CommentText(n)
+	c09CheckComment(c09Fill(c09SplitTemplate, slot, marker, false), marker, c09SplitListed[slot])
+}
